@@ -38,6 +38,7 @@ type Spec struct {
 	GoAsCall        []string `json:"go_as_call"`
 	StubError       []string `json:"stub_error"`
 	RealLogger      bool     `json:"real_logger"`
+	Redirect        map[string]string `json:"redirect"`
 	Note            string   `json:"note"`
 }
 
@@ -155,7 +156,7 @@ func main() {
 		c := exec.Config{Unwind: pick(sp.Unwind, *unwind), MaxSteps: pick(sp.MaxSteps, *steps), MaxDepth: pick(sp.MaxDepth, *depth),
 			MaxAlloc: pick64(sp.MaxAlloc, *alloc), MaxPaths: sp.MaxPaths, Solver: *solver, TimeoutMs: *timeout, Workers: *workers,
 			AllocViolation: sp.AllocViolation, UnwindViolation: sp.UnwindViolation, PanicOK: sp.PanicOK, Preempt: sp.Preempt,
-			RaceFields: sp.RaceFields, NoOps: sp.NoOps, TimerAnyTime: sp.TimerAnyTime, Verbose: *verbose, DumpDir: *dump, Seed: *seed, SelfCheck: *selfcheck, RestartEvery: *restart, SkipInit: sp.SkipInit, GoAsCall: sp.GoAsCall, StubError: sp.StubError, RealLogger: sp.RealLogger}
+			RaceFields: sp.RaceFields, NoOps: sp.NoOps, TimerAnyTime: sp.TimerAnyTime, Verbose: *verbose, DumpDir: *dump, Seed: *seed, SelfCheck: *selfcheck, RestartEvery: *restart, SkipInit: sp.SkipInit, GoAsCall: sp.GoAsCall, StubError: sp.StubError, RealLogger: sp.RealLogger, Redirect: sp.Redirect}
 		if sp.BudgetS > 0 {
 			c.Deadline = time.Now().Add(time.Duration(sp.BudgetS) * time.Second)
 		}
